@@ -56,7 +56,7 @@ def run(tier, replay=None):
     argsets = []
     exhaustive = False
     for m in range(12):
-        for sp in ("u", "s", "m"):
+        for sp in ("u", "s", "m", "z", "y"):
             argsets.append(["c04list", "text", m, sp, bfile, "@OUT"])
             argsets.append(["c04list", "text", m, sp, small, "@OUT"])
         argsets.append(["c04list", "dir", m, "s", bfile, "@OUT"])
@@ -64,7 +64,7 @@ def run(tier, replay=None):
     if tier == "quick":
         # pseudo-random strided sweeps of the whole 32-bit space: ~2e7 values in all
         for m in range(12):
-            for sp in ("u", "s", "m"):
+            for sp in ("u", "s", "m", "z", "y"):
                 stride = 4801 + 2 * rnd.randrange(200)
                 argsets.append(["c04", "text", m, sp, rnd.randrange(stride), 1 << 32, stride, "@OUT"])
     else:
@@ -78,8 +78,8 @@ def run(tier, replay=None):
                 for lo in range(0, 1 << 32, chunk):
                     argsets.append(["c04", "text", m, sp, lo, lo + chunk, 1, "@OUT"])
         for m in range(12):
-            for sp in ("u", "s", "m"):
-                if m in (3, 9) and sp != "m":
+            for sp in ("u", "s", "m", "z", "y"):
+                if m in (3, 9) and sp in ("u", "s"):
                     continue
                 stride = 1201 + 2 * rnd.randrange(100)
                 argsets.append(["c04", "text", m, sp, rnd.randrange(stride), 1 << 32, stride, "@OUT"])
@@ -118,13 +118,13 @@ def run(tier, replay=None):
     v.cov["distinct_nontrivial"] = total  # every (mnemonic, spelling, value) line is distinct by construction
     v.cov["rule"] = ("one evaluation = one assembled line `<MNEMONIC> <literal>` decode-walked in the emitted image; lines are "
                      "distinct (mnemonic, level, spelling, value) tuples; boundary windows +/-4096 around 0, +/-16^k, 2^31, 2^32 and "
-                     "all |v| < 2^20 are complete in both tiers")
+                     "all |v| < 2^20 are complete in both tiers; spellings: u unsigned, s signed, m -n for every value, z and y the same with one to four leading zeros")
     v.cov["values_per_mnemonic_level_spelling"] = per
     v.cov["chain_length_histogram_bytes"] = {str(i): chain[i] for i in range(1, 10) if chain[i]}
     v.cov["exhaustive"] = exhaustive
     if exhaustive:
         v.cov["exhaustive_ranges"] = ["directive level: all 2^32 values x 12 mnemonics",
-                                      "text level: all 2^32 values x {LDAC, BR} x {unsigned, signed} spelling; '-n' with n up to 2^32-1 for every value: strided"]
+                                      "text level: all 2^32 values x {LDAC, BR} x {unsigned, signed} spelling; '-n' with n up to 2^32-1 for every value and the leading-zero spellings: strided"]
     v.assumptions = ["the ISA operand rule (PFIX: oreg<<4, NFIX: 0xFFFFFF00|oreg<<4, from a clear oreg) is the decoder",
                      "text-level enumeration is complete for LDAC and BR only; the other ten mnemonics share parseInteger and are sampled"]
     return v.finish(min_evaluations=1000000)
